@@ -9,6 +9,7 @@ import (
 	"fmt"
 	"go/ast"
 	"go/token"
+	"regexp"
 	"strconv"
 	"strings"
 
@@ -643,6 +644,7 @@ func (t *tr) caseChain(clauses []ast.Stmt, cond func(ast.Expr) string, whole ast
 
 func genLang(c *ex.Ctx) {
 	var sb strings.Builder
+	drawText := ""
 	sb.WriteString("import VaxisModel.Model.EdLang\n\n/-! The functions of vxfw/textfield/textfield.go and widgets/textinput/textinput.go, translated statement by\n    statement (receiver tf / m, parameters p0 …, locals l0 … in order of declaration). -/\nnamespace VaxisModel.Gen.EditorLang\nopen VaxisModel.Model.EdLang\n\n")
 	emit := func(f *ast.File, file, recvT, canon, name, lean string) {
 		fmt.Fprintf(&sb, "/-- `%s` (%s) -/\ndef %s : Fn :=\n", name, file, lean)
@@ -669,6 +671,9 @@ func genLang(c *ex.Ctx) {
 			}
 		}
 		body := t.block(fd.Body.List)
+		if name == "Draw" && recvT == "TextField" {
+			drawText = body
+		}
 		fmt.Fprintf(&sb, "  ⟨[%s],\n    %s⟩\n\n", strings.Join(params, ", "), body)
 	}
 	tf := c.Parse("vxfw/textfield/textfield.go")
@@ -685,6 +690,12 @@ func genLang(c *ex.Ctx) {
 	for _, fn := range []string{"SetContent", "Update", "resegment"} {
 		emit(ti, "widgets/textinput/textinput.go", "Model", "m", fn, "ti"+strings.ToUpper(fn[:1])+fn[1:])
 	}
+	// the variable Draw keeps the cursor column in: the left side of its `….Cursor.Col = …` assignments
+	key := "unknown"
+	if m := regexp.MustCompile(`S\.assign "([^"]*\.Cursor\.Col)"`).FindStringSubmatch(drawText); m != nil {
+		key = m[1]
+	}
+	fmt.Fprintf(&sb, "/-- where `TextField.Draw` keeps the cursor column -/\ndef tfDrawCursorKey : String := %s\n\n", q(key))
 	sb.WriteString("end VaxisModel.Gen.EditorLang\n")
 	c.Write("EditorLang.lean", sb.String())
 }
